@@ -72,7 +72,7 @@ func c13One(c *core.Ctx, t *dyn.TypeOps, ch, l, k int) dyn.Buf {
 
 func runC13(c *core.Ctx) {
 	smallK := c.Pick(5, 12)
-	chans := []int{1, 2, 3, 4, 5, 8, 13, 64}
+	chans := []int{1, 2, 3, 4, 5, 8, 13, 49, 64, 255, 256, 300}
 	if !c.Quick() {
 		chans = nil
 		for i := 1; i <= 64; i++ {
@@ -284,6 +284,49 @@ func runC13(c *core.Ctx) {
 				}
 			}
 		}
+		// buffers grown by Append before the collection must still hold
+		// their samples afterwards (their new storage is reachable only
+		// through the buffer header)
+		type grownRec struct {
+			b    dyn.Buf
+			want []dyn.Val
+		}
+		var grown []grownRec
+		for i := 0; i < 6; i++ {
+			gb := t.Alloc(al)
+			src := t.Alloc(signal.Allocator{Channels: al.Channels, Length: al.Capacity + 3 + i, Capacity: al.Capacity + 3 + i})
+			for j := 0; j < src.Len(); j++ {
+				src.SetSample(j, mon.Canary(t.TypeInfo, j, 7000+i))
+			}
+			gb.Append(src)
+			var want []dyn.Val
+			for j := 0; j < gb.Len(); j++ {
+				want = append(want, gb.Sample(j))
+			}
+			grown = append(grown, grownRec{gb, want})
+		}
+		for i := 0; i < 2; i++ {
+			runtime.GC()
+			runtime.Gosched()
+		}
+		var churn []dyn.Buf
+		for i := 0; i < 200; i++ { // later allocations of similar size classes, written
+			nb := t.Alloc(signal.Allocator{Channels: al.Channels, Length: al.Capacity + i%9, Capacity: al.Capacity + 3 + i%9})
+			for j := 0; j < nb.Len(); j++ {
+				nb.SetSample(j, mon.Canary(t.TypeInfo, j, 9000+i))
+			}
+			churn = append(churn, nb)
+		}
+		for gi, gr := range grown {
+			for j, w := range gr.want {
+				if j >= gr.b.Len() || !gr.b.Sample(j).Same(w) {
+					c.Violate(inst+"|grown-buffer-lost-after-gc", caseID, fmt.Sprintf("buffer %d grown by Append before a garbage collection: sample %d changed from %v", gi, j, w), d)
+					break
+				}
+			}
+		}
+		runtime.KeepAlive(churn)
+		c.Obs("grown_buffers_rechecked_after_gc", int64(len(grown)))
 		c.Obs("allocation_rounds_after_forced_gc", 1)
 		runtime.KeepAlive(liveViews)
 	}
